@@ -113,11 +113,6 @@ KW_DTYPES = ['float64', 'float32', 'complex128', 'complex64', 'int64',
 ORDERS = ('C', 'F', 'strided', 'rev')
 
 
-def _quiet():
-    ctx = warnings.catch_warnings()
-    return ctx
-
-
 def _probe(name, dt, **kw):
     uf = getattr(np, name)
     a = np.ones(2, dtype=dt)
@@ -726,7 +721,22 @@ def _cur(obj):
     return np.asarray(obj)
 
 
-def _same(a, b):
+# NumPy itself is not bit-deterministic for the ufuncs with SIMD *and* scalar
+# kernels (exp, log, trigonometric, power, ...; complex arithmetic): which
+# kernel runs depends on an address-range overlap test that misfires when a
+# negative-stride operand happens to be heap-adjacent to the output, and the
+# two kernels differ in the last bits. A value mismatch is therefore re-tried
+# with a perturbed heap (`run_case`); only on the last attempt, and only for
+# those ufuncs, differences up to ULP_FALLBACK ulp are let through (counted).
+INEXACT = {'arccos', 'arccosh', 'arcsin', 'arcsinh', 'arctan', 'arctan2',
+           'arctanh', 'cos', 'cosh', 'exp', 'exp2', 'expm1', 'log', 'log10',
+           'log1p', 'log2', 'logaddexp', 'logaddexp2', 'power', 'float_power',
+           'sin', 'sinh', 'tan', 'tanh', 'cbrt', 'hypot'}
+ULP_FALLBACK = 16
+_MODE = {'lenient': False, 'tolerated': 0}
+
+
+def _same(a, b, ufunc=None):
     """Bit-identical, NaNs compared by position only."""
     a = np.asarray(a)
     b = np.asarray(b)
@@ -734,6 +744,24 @@ def _same(a, b):
         return False
     if a.dtype.kind not in 'fc':
         return bool(np.array_equal(a, b))
+    if _same_bits(a, b):
+        return True
+    if _MODE['lenient'] and ufunc is not None and (
+            ufunc in INEXACT or a.dtype.kind == 'c'):
+        with np.errstate(all='ignore'):
+            fin = np.isfinite(a) & np.isfinite(b)
+            if not _same_bits(np.where(fin, 0, a), np.where(fin, 0, b)):
+                return False
+            err = np.abs(np.where(fin, a, 0) - np.where(fin, b, 0))
+            tol = ULP_FALLBACK * np.finfo(a.dtype).eps * np.abs(
+                np.where(fin, b, 0))
+            if np.all(err <= tol):
+                _MODE['tolerated'] += 1
+                return True
+    return False
+
+
+def _same_bits(a, b):
     ca = np.ascontiguousarray(a)
     cb = np.ascontiguousarray(b)
     if ca.tobytes() == cb.tobytes():
@@ -830,6 +858,17 @@ def _kept_axes(kw, nd, method):
     else:
         red = {ax % nd}
     return [i for i in range(nd) if i not in red]
+
+
+def _ekind_label(ekind, sd):
+    """Element kind as it appears in signatures: array-weighted tensor
+    spaces are a region of their own, non-power product spaces too."""
+    if ekind == 'pspace':
+        return 'pspace' if _sd_shape(sd) is not None else 'prodspace'
+    if ekind == 'tensor' and (sd.get('weighting') or {}).get(
+            'type') == 'array':
+        return 'tensor-aw'
+    return ekind
 
 
 class _Sig(object):
@@ -955,14 +994,51 @@ def _make_out(od, ekind, sd, x_op, shape, dtype):
 DOCUMENTED_REJECTIONS = 'documented'
 
 
+RETRY_CLAUSES = ('|value|', '|out-value|', '|operand-modified|',
+                 '|at-mutation|')
+RETRIES = 3
+
+
+def _dispatch(desc):
+    if desc['method'] == 'wrap':
+        return _run_wrap(desc)
+    if desc['method'] == 'legacy_red':
+        return _run_legacy_red(desc)
+    return _run_ufunc(desc)
+
+
 def run_case(desc):
     with warnings.catch_warnings():
         warnings.simplefilter('ignore')
-        if desc['method'] == 'wrap':
-            return _run_wrap(desc)
-        if desc['method'] == 'legacy_red':
-            return _run_legacy_red(desc)
-        return _run_ufunc(desc)
+        _MODE['lenient'] = False
+        try:
+            return _dispatch(desc)
+        except Violation as v:
+            if not any(c in v.signature + '|' for c in RETRY_CLAUSES):
+                raise
+            last = v
+        # value mismatch: NumPy's kernel choice may depend on heap adjacency
+        # (see INEXACT) - repeat the whole case on a perturbed heap; a real
+        # deviation of ODL is deterministic and fails every time
+        for k in range(RETRIES):
+            junk = [np.empty(sz + 8 * k, dtype=np.uint8)
+                    for sz in range(8, 6000, 40)]
+            _MODE['lenient'] = k == RETRIES - 1
+            _MODE['tolerated'] = 0
+            try:
+                out = _dispatch(desc)
+            except Violation as v:
+                last = v
+                continue
+            finally:
+                _MODE['lenient'] = False
+                del junk
+            out.notes = dict(out.notes or {})
+            out.notes['numpy_kernel_flip_retried'] = 1
+            if _MODE['tolerated']:
+                out.notes['ulp_fallback_tolerated'] = 1
+            return out
+        raise last
 
 
 def _call_numpy(fn):
@@ -982,8 +1058,7 @@ def _run_ufunc(desc):
     shape = _sd_shape(sd)
     is_power = shape is not None
     kw = _kw_build(desc.get('kwargs', {}))
-    sig = _Sig(ekind if is_power or ekind != 'pspace' else 'prodspace',
-               method)
+    sig = _Sig(_ekind_label(ekind, sd), method)
     sig.extra = 'nout2' if uf.nout == 2 else ''
     legacy = method == 'legacy'
 
@@ -1160,7 +1235,7 @@ def _run_ufunc(desc):
     for j, o in enumerate(ops):
         if not isinstance(o.ref, np.ndarray):
             continue
-        if not _same(_cur(o.odl), o.ref):
+        if not _same(_cur(o.odl), o.ref, name):
             clause = 'at-mutation' if method == 'at' else 'operand-modified'
             raise Violation(sig(clause),
                             'operand {} after the call differs from NumPy\'s '
@@ -1219,7 +1294,7 @@ def _compare_result(sig, desc, i, g, r, o_odl, o_ref, x, ops, kw, strata):
             raise Violation(sig('out-identity', tail),
                             'result {} is not the given out object (got {!r})'
                             ''.format(i, type(g)))
-        if not _same(_cur(o_odl), o_ref):
+        if not _same(_cur(o_odl), o_ref, desc['ufunc']):
             raise Violation(sig('out-value', tail),
                             'out {} holds other values than NumPy\'s out: {}'
                             ''.format(i, _diff_text(_cur(o_odl), o_ref)))
@@ -1245,7 +1320,7 @@ def _compare_result(sig, desc, i, g, r, o_odl, o_ref, x, ops, kw, strata):
             raise Violation(sig('dtype', 'scalar'),
                             'scalar result has dtype {} (NumPy {})'.format(
                                 gd.dtype, np.asarray(r).dtype))
-        if not _same(gd, np.asarray(r)):
+        if not _same(gd, np.asarray(r), desc['ufunc']):
             raise Violation(sig('value', 'scalar'), _diff_text(gd, r))
         strata.append('result:scalar')
         return
@@ -1272,7 +1347,7 @@ def _compare_result(sig, desc, i, g, r, o_odl, o_ref, x, ops, kw, strata):
                         ''.format(getattr(ga, 'shape', None),
                                   getattr(ga, 'dtype', None), r.shape,
                                   r.dtype))
-    if not _same(ga, r):
+    if not _same(ga, r, desc['ufunc']):
         raise Violation(sig('value', tail), _diff_text(ga, r))
     for o in ops:
         if o.is_elem and g is o.odl:
@@ -1281,10 +1356,13 @@ def _compare_result(sig, desc, i, g, r, o_odl, o_ref, x, ops, kw, strata):
     strata.append('result:wrapped')
 
     # --- result space -----------------------------------------------------
+    # NumPy hands the call to the first element-typed operand: its space is
+    # the one whose properties are propagated
     uf = getattr(np, desc['ufunc'])
-    same_shape = r.shape == tuple(x.shape)
+    lead = [o for o in ops if o.is_elem][0].odl
+    same_shape = r.shape == tuple(lead.shape)
     if ekind == 'tensor' and uf.nout == 1:
-        sp = x.space
+        sp = lead.space
         flt = r.dtype.kind in 'fc'
         if flt and g.space.exponent != sp.exponent:
             raise Violation(sig('exponent', tail),
@@ -1303,10 +1381,11 @@ def _compare_result(sig, desc, i, g, r, o_odl, o_ref, x, ops, kw, strata):
             if getattr(w, 'const', None) != 1.0:
                 raise Violation(sig('weighting-dropped', tail),
                                 'shape changed {} -> {} but result space has '
-                                'weighting {!r}'.format(x.shape, r.shape, w))
+                                'weighting {!r}'.format(lead.shape, r.shape,
+                                                        w))
             strata.append('weighting:dropped')
     if ekind == 'discr':
-        own = _partition_axes(x.space)
+        own = _partition_axes(lead.space)
         gotp = _partition_axes(g.space)
         if method in ('__call__', 'legacy', 'accumulate'):
             exp = own
@@ -1327,11 +1406,11 @@ def _compare_result(sig, desc, i, g, r, o_odl, o_ref, x, ops, kw, strata):
                 '{}'.format(g.space.partition,
                             [(e[0], e[1], len(e[2])) for e in exp]))
         if method in ('__call__', 'legacy', 'accumulate') and \
-                r.dtype == np.dtype(x.dtype) and uf.nout == 1 and \
-                r.dtype.kind in 'fc' and g.space != x.space:
+                r.dtype == np.dtype(lead.dtype) and uf.nout == 1 and \
+                r.dtype.kind in 'fc' and g.space != lead.space:
             raise Violation(sig('space', tail),
                             'dtype and shape unchanged but result space '
-                            '{!r} != {!r}'.format(g.space, x.space))
+                            '{!r} != {!r}'.format(g.space, lead.space))
 
 
 # --------------------------------------------------------------------------
@@ -1371,7 +1450,7 @@ def _run_prodspace_legacy(desc, sig, uf, x, ops, kw):
     in_dtype = np.dtype(_sd_dtype(sd))
     flat = [q for r in refs for q in (r if isinstance(r, tuple) else (r,))]
     sig.dt = _dtclass(in_dtype, [q.dtype for q in flat])
-    strata.append('dt:' + sig.dt)
+    strata.append('dt:' + sig.dt.rstrip('<'))
     if odl_exc is not None:
         raise Violation(sig('raises', type(odl_exc).__name__),
                         'x.ufuncs.{}() on a product space element: {}: {}'
@@ -1393,7 +1472,7 @@ def _run_prodspace_legacy(desc, sig, uf, x, ops, kw):
             if ga.dtype != r.dtype:
                 raise Violation(sig('dtype'), 'part {} dtype {} (NumPy {})'
                                 ''.format(i, ga.dtype, r.dtype))
-            if not _same(ga, r):
+            if not _same(ga, r, name):
                 raise Violation(sig('value'), 'part {}: {}'.format(
                     i, _diff_text(ga, r)))
     return Outcome('ok', strata=strata)
@@ -1414,7 +1493,7 @@ def _run_legacy_red(desc):
     in_dtype = np.dtype(_sd_dtype(sd))
     shape = _sd_shape(sd)
     kw = _kw_build(desc.get('kwargs', {}))
-    sig = _Sig(ekind, 'legacy-' + red)
+    sig = _Sig(_ekind_label(ekind, sd), 'legacy-' + red)
     strata = ['legacy_red|' + ekind, 'method:legacy_red', 'kind:' + ekind,
               'dtype:' + str(in_dtype), 'red:' + red]
     space = build.build_space(sd)
@@ -1498,7 +1577,7 @@ def _run_legacy_red(desc):
         strata.append('np-rejects:' + ('odl-rejects' if odl_exc is not None
                                        else 'odl-accepts'))
         return Outcome('rejected', strata=strata)
-    strata.append('dt:' + sig.dt)
+    strata.append('dt:' + sig.dt.rstrip('<'))
     if odl_exc is not None:
         doc = _documented_rejection(ekind, 'reduce', kw, [x_op], odl_exc,
                                     True)
@@ -1527,7 +1606,7 @@ def _run_wrap(desc):
     ad = desc['array']
     dtype = np.dtype(_sd_dtype(sd))
     shape = _sd_shape(sd)
-    sig = _Sig(ekind, 'wrap')
+    sig = _Sig(_ekind_label(ekind, sd), 'wrap')
     space = build.build_space(sd)
     arr = build.build_array(ad)
     ref = build.build_array(ad)
